@@ -209,7 +209,8 @@ class ClosedFormIASolver(IASolverBaseClass):
         assert self.K == 3, ('The ClosedFormIASolver class only works'
                              ' in a MIMO-IC scenario with 3 users.')
 
-        if isinstance(Ns, (int, np.integer)):
+        if np.ndim(Ns) == 0:
+            # A python int, a numpy integer scalar or a 0-dimensional array
             Ns = np.ones(3, dtype=int) * int(Ns)
         else:
             # noinspection PyTypeChecker
@@ -518,7 +519,8 @@ class IterativeIASolverBaseClass(IASolverBaseClass):
             Power of each user. If not provided, a value of 1 will be used
             for each user.
         """
-        if isinstance(Ns, (int, np.integer)):
+        if np.ndim(Ns) == 0:
+            # A python int, a numpy integer scalar or a 0-dimensional array
             Ns = np.ones(self.K, dtype=int) * int(Ns)
 
         # Help the type system knowing that at this point Ns is a Sequence[int]
@@ -871,7 +873,8 @@ class IterativeIASolverBaseClass(IASolverBaseClass):
         "step" part of the algorithm, then reimplement also the _step()
         method.
         """
-        if isinstance(Ns, (int, np.integer)):
+        if np.ndim(Ns) == 0:
+            # A python int, a numpy integer scalar or a 0-dimensional array
             Ns = np.ones(self.K, dtype=int) * int(Ns)
         else:
             # noinspection PyTypeChecker
